@@ -44,6 +44,15 @@ def sf(x):
         return float("nan")
 
 
+def safe_repr(x):
+    """str(x) for a sample or a message; an object the library cannot render (a known finding or not the property at
+    hand) must not take the harness down"""
+    try:
+        return str(x)
+    except Exception as e:
+        return f"<{type(x).__name__} that cannot be rendered: {type(e).__name__}>"
+
+
 def short_hash(obj) -> str:
     return hashlib.sha1(repr(obj).encode("utf-8", "backslashreplace")).hexdigest()[:14]
 
